@@ -317,7 +317,14 @@ pub fn generate(tier: &str, seed: u64, out: &mut Out) {
         n += 1;
         let key = origin.split(' ').next().unwrap_or("").to_string();
         *by_origin.entry(key).or_insert(0) += 1;
+        let before = out.oracle.len();
         check_bytes(b, origin, out, &mut hangs);
+        // byte-level correspondence (reader model composed with the decoder models) on a
+        // sample of the inputs; inputs on which the implementation hung or panicked are skipped
+        if out.oracle.len() == before && b.len() <= 6000 && n % 3 == 0 {
+            crate::decoders::model_case_bytes(8, b, out, origin);
+            crate::decoders::model_case_bytes((n % 8) as usize, b, out, origin);
+        }
     });
     if skipped > 0 {
         out.count_n("inputs.skipped_after_hangs", skipped);
